@@ -13,7 +13,7 @@ import z3
 
 from . import numkernel, c02
 from .c01 import Harness, layout
-from .common import Report
+from .common import Report, guarded, merge_part
 from .db import db
 from .explorer import explore, prove, satisfiable, Unsupported, EX
 from .numkernel import Sig, run_kernel
@@ -94,6 +94,7 @@ class Stub:
         self.raises = z3.Bool("kr%d" % Stub.n)
 
 
+@guarded
 def _def_worker(idxs):
     from . import explorer
     explorer.STATS.__init__()
@@ -299,6 +300,7 @@ def _def_worker(idxs):
                 samples=rep.samples, stats=explorer.STATS)
 
 
+@guarded
 def _sig_worker(item):
     from . import explorer
     explorer.STATS.__init__()
